@@ -450,6 +450,30 @@ def oracle(c, cm, vals, res):
                     if a != [0, [0, want]]:
                         return f"TAB-INTP convert_internal_to_physical({v}) = {a}, interpolation rounds to {want}"
                     break
+    if k == "texttable":
+        # a text without COMPU-INVERSE-VALUE is encoded by a value inside its own scale (interval types honoured), and is
+        # read back when no other scale claims that value
+        def tt_applies(s_, x):
+            if s_["lo"] is None and s_["hi"] is None:
+                return True
+            if s_["hi"] is None:
+                return x == s_["lo"][0]
+            if s_["lo"] is None:
+                return x == s_["hi"][0]
+            return lim_ok_lower(s_["lo"], x) and lim_ok_upper(s_["hi"], x)
+        for v, (vi, vp, a, b) in zip(vals, res):
+            if not isinstance(v, str):
+                continue
+            ms = [s_ for s_ in c["scales"] if s_["const"] == v]
+            if len(ms) == 1 and ms[0]["inv"] is None and isinstance(b, list) and b[0] == 0 and b[1][0] == 0:
+                x = b[1][1]
+                if not tt_applies(ms[0], x):
+                    return (f"TEXTTABLE text {v!r} is encoded as {x}, which lies outside its scale "
+                            f"{ms[0]['lo']} .. {ms[0]['hi']} (0 = OPEN, 1 = CLOSED, 2 = INFINITE)")
+                if [s_ for s_ in c["scales"] if tt_applies(s_, x)] == ms:
+                    back = call(cm.convert_internal_to_physical, x)
+                    if back != [0, [1, [ord(ch) for ch in v]]]:
+                        return f"TEXTTABLE text {v!r} is encoded as {x}, which converts back to {back}"
     if k == "scalelinear":
         segs = c["segs"]
         sl = [Fraction(s["num"], s["den"]) if s["den"] else None for s in segs]
@@ -482,12 +506,19 @@ def main(argv=None):
         cases.append((dict(k="scalelinear", segs=[dict(off=0, num=1, den=1, lo=(0, 1), hi=(10, 1), inv=None),
                                                   dict(off=-10, num=2, den=1, lo=(10, 1), hi=(20, 1), inv=None)]),
                       [0, 5, 10, 11, 30]))
+        # text tables whose scales exclude a limit (INTERVAL-TYPE OPEN): the text is encoded by a value inside the scale
+        tt = lambda lo, hi, t: dict(lo=lo, hi=hi, const=t, inv=None)
+        for sc in ([tt((0, 1), (5, 1), "low"), tt((5, 0), (10, 1), "high")],
+                   [tt((0, 1), (5, 0), "low"), tt((5, 1), (10, 0), "high")],
+                   [tt((0, 0), (5, 0), "low"), tt((5, 0), (6, 0), "none"), tt((7, 0), None, "one"), tt(None, (9, 0), "other")]):
+            cases.append((dict(k="texttable", scales=sc, pdef=None, idef=None),
+                          list(range(-1, 12)) + ["low", "high", "none", "one", "other", "nope"]))
         for _ in range(400 if quick else 6000):
             c = gen_compu(rng)
             vals = list(range(-3, 259)) if rng.random() < (0.5 if quick else 0.8) else \
                 sorted(set([rng.randint(-300, 1300) for _ in range(40)] + [0, 1, 255, 256, -1]))
             if c["k"] == "texttable":
-                vals = vals[:120] + ["on", "off", "err", "t0", "t1", "t2", "dflt", "nope", ""]
+                vals = vals[:120] + ["on", "off", "err", "t0", "t1", "t2", "dflt", "nope", "", "t3", "on ", " off", "t 0", "t 1"]
             cases.append((c, vals))
     wires = [[M, [w_compu(c), [[0, v] if isinstance(v, int) else [1, cc.w_name(v)] for v in vals]]] for c, vals in cases]
     mres = None
